@@ -74,11 +74,18 @@ def gen_hop_url(rng, host=None, scheme='http'):
     host = host or rng.choice(['a.test', 'a.test', 'b.test', 'c.test', 'a.test:8080', 'b.test:81', 'bücher.test', '127.0.2.9',
                                '[::1]', '[::1]:8080', 'a.test:443', 'c.test:21', 'b.test:70', '[::1]:443', 'a.test:80',
                                'b.test:8443'])
+    if rng.random() < 0.02:
+        # compatibility characters that IDNA mapping folds into '/', '?', '#': not host names (the URL must be refused)
+        host = rng.choice(['a.test\uff0f.b.test', 'a\uff1fb.test', 'c.test\uff03x', 'a.test\u2100b.test:81'])
     path = '/' + '/'.join(rng.choice(['x', 'y y', 'é', '%0D%0A', 'a%20b', '%00', 'HTTP/1.1', 'q?', ';p', 'a:b', '~u', '%7e',
                                       '"q"', '<s>', 'x\\y', '..', '.', 'very' * 30])
                           for _ in range(rng.randrange(0, 4)))
     query = rng.choice(['', '', 'a=1', 'q=x y', 'q=%0d%0aInjected: 1', 'r=http://b.test/', 'é=ü', 'a=b&c=d#frag', 'x=%20HTTP/1.1'])
     userinfo = ''
+    if rng.random() < 0.06:
+        # a hop (e.g. a redirect target) that carries user info of its own, also one that spells another authority once its
+        # escapes are decoded
+        userinfo = rng.choice(['user:pw@', 'b.test:p%2Fx@', 'c.test:a%40b@', 'b.test:x%5Cy%3Fz%23w@', 'u%2F:p@'])
     return scheme + '://' + userinfo + host + path + ('?' + query if query else '')
 
 
@@ -98,8 +105,16 @@ def gen_case(rng):
                      'cookie_value': rng.choice(COOKIE_VALUES)})
     case = {'hops': hops, 'credentials': None, 'referer': rng.choice([None, 'http://a.test/from page', 'https://s.test/secret']),
             'method': 'GET', 'challenge': False, 'preset_cookie': rng.random() < 0.5, 'proxy': proxy}
+    for h in hops:
+        m = re.match(r'^\w+://(b\.test|c\.test):', h['url'])
+        if m:
+            case['other_host_cookie'] = m.group(1)
     if rng.random() < 0.35:
-        case['credentials'] = rng.choice([['user', 'pw'], ['us er', 'p:w'], ['ü', 'pä'], ['a\r\nX: 1', 'b']])
+        case['credentials'] = rng.choice([['user', 'pw'], ['us er', 'p:w'], ['ü', 'pä'], ['a\r\nX: 1', 'b'],
+                                          # user info that looks like another authority once its escapes are decoded
+                                          ['b.test', 'p/x'], ['c.test', 'a@b'], ['b.test', 'x\\y?z#w'], ['c.test:80', '/@/']])
+        if case['credentials'][0].split(':')[0] in ('b.test', 'c.test'):
+            case['other_host_cookie'] = case['credentials'][0].split(':')[0]
         # 'url': credentials inside the first URL (sent at once); 'login': configured user/password (as --http-user),
         # sent only after a 401 challenge
         case['credential_mode'] = rng.choice(['url', 'login'])
@@ -134,6 +149,13 @@ def run_case(case, part):
             infos[0] = URLInfo.parse(first)
         except ValueError:
             part.count('cases_with_unparseable_url')
+            return
+    for info in infos:
+        # every generated host is one of the known names / literals or is not a host name at all (and must have been refused)
+        if HOST_IPS.get(info.hostname, HOST_IPS.get('[' + info.hostname + ']')) is None:
+            part.violation('url-accepted-although-its-host-is-not-a-host-name', {'url': info.url, 'hostname': info.hostname,
+                                                                              'hops': [h['url'] for h in hops]}, replay)
+            part.evaluations += 1
             return
     shared = Shared()
     outcome = {}
@@ -211,6 +233,12 @@ def run_case(case, part):
                 return r
             client = WebClient(http_client=Client(connection_pool=pool), request_factory=request_factory,
                                cookie_jar=CookieJarWrapper(jar))
+            if case.get('other_host_cookie'):
+                # a cookie that a different host (the one the user name spells) set on an earlier visit
+                import http.cookiejar
+                jar.set_cookie(http.cookiejar.Cookie(
+                    0, 'othersid', 'of-' + case['other_host_cookie'], None, False, case['other_host_cookie'], False, False, '/', True,
+                    False, None, False, None, None, {}))
             if case.get('preset_cookie'):
                 # a cookie the first host set on an earlier visit
                 import http.cookiejar
@@ -282,7 +310,10 @@ def run_case(case, part):
             seen_setcookie['sid%d' % cookie_serial] = info.hostname
     if case.get('preset_cookie'):
         seen_setcookie['presid'] = infos[0].hostname
+    if case.get('other_host_cookie'):
+        seen_setcookie['othersid'] = case['other_host_cookie']
     cred_host = host_of(infos[0]) if case['credentials'] else None
+    own_userinfo_hosts = set(host_of(i) for i in infos if i.username or i.password)
     for k, (addr, port, raw, cid) in enumerate(reqs):
         part.count('requests_captured')
         if k >= len(expected):
@@ -324,6 +355,10 @@ def run_case(case, part):
         if target_cmp != want_cmp:
             part.violation('request-target-differs/' + cls, {'target': target, 'expected': want_target, 'url': info.url}, replay)
         hosts = [v for n, v in fields if n == 'host']
+        for hv in hosts:
+            # independent of wpull's own URL parser: a Host value is a reg-name / IP literal with an optional port
+            if not re.match(r'^(\[[0-9A-Fa-f:.]+\]|[A-Za-z0-9._~-]+)(:[0-9]+)?$', hv):
+                part.violation('host-field-is-not-a-host/' + cls, {'host_field': hv, 'hop_url': info.url}, replay)
         if len(hosts) != 1:
             part.violation('host-field-count/{}'.format(len(hosts)), {'raw': raw[:300]}, replay)
         elif hosts[0] != host_of(info):
@@ -335,7 +370,9 @@ def run_case(case, part):
             part.count('host_field_correct')
         for n, v in fields:
             if n == 'authorization':
-                if cred_host is None or host_of(info) != cred_host:
+                if host_of(info) in own_userinfo_hosts:
+                    part.count('authorization_from_the_hop_urls_own_user_info')
+                elif cred_host is None or host_of(info) != cred_host:
                     is_replay = exp.get('index', 0) > 0 and hops[exp['index'] - 1]['code'] in (307, 308)
                     part.violation('credentials-sent-to-other-host/' + ('replayed-307-308-request' if is_replay else cls),
                                    {'to': host_of(info), 'credentials_for': cred_host}, replay)
